@@ -73,8 +73,13 @@ class Crash(SystemExit):
 
 
 def script(prog, v=1):
-    """Return the content of an executable step script running `prog` (a list of actions)."""
-    return SHEBANG + "\n" + json.dumps({"v": v, "prog": prog}, sort_keys=True) + "\n"
+    """Return the content of an executable step script running `prog` (a list of actions).
+
+    The file is a real Python script: run by a real `stepup build` it executes the same program
+    through the real `stepup.core.api` (see vf/realrt.py); the simulated launcher reads the program
+    from the comment on its second line. Both worlds therefore hold byte-identical files."""
+    return (SHEBANG + "\n# " + json.dumps({"v": v, "prog": prog}, sort_keys=True) + "\n"
+            + "import sys; sys.path.insert(0, '/verif'); from vf.realrt import main; main(sys.argv[0])\n")
 
 
 class World:
@@ -330,6 +335,7 @@ class Proc:
         self.nact = 0
         self.started_at = sim.nev
         self.rpc_log = []
+        self.pyscript = False
 
     def rel(self, path):
         """Translate a path relative to the process's cwd into a root-relative path."""
@@ -775,7 +781,14 @@ class Sim:
         try:
             try:
                 actions = self._program_of(proc)
-                await self._run_actions(proc, actions)
+                try:
+                    await self._run_actions(proc, actions)
+                finally:
+                    if proc.pyscript and self.cfg.get("path_filter_amend", True):
+                        # the real launcher of Python scripts ends every script, also a failing
+                        # one, with amend(inp=get_local_import_paths()), whose getenv() amends
+                        # the STEPUP_PATH_FILTER variable (stepup/core/run.py PYCODE_WRAPPER)
+                        await self._run_actions(proc, [["amend", {"env": "STEPUP_PATH_FILTER"}]])
                 if self.cfg.get("exit_gate", False):
                     await self.gate("proc", f"{proc.label}|exit")
             except ScriptExit as exc:
@@ -800,7 +813,8 @@ class Sim:
             try:
                 with open(path) as fh:
                     first = fh.readline().rstrip()
-                    rest = fh.read()
+                    rest = fh.readline()
+                    rest = rest[2:] if rest.startswith("# ") else "!"
             except OSError as exc:
                 raise ScriptExit(1, f"cannot read script: {exc}") from None
             if first != SHEBANG or not os.access(path, os.X_OK):
@@ -810,6 +824,7 @@ class Sim:
             except ValueError:
                 raise ScriptExit(1, "syntax error in script") from None
             proc.argv = parts[1:]
+            proc.pyscript = True
             return doc["prog"]
         if exe == "tr":
             tag = parts[1]
@@ -894,11 +909,9 @@ class Sim:
 
     @staticmethod
     def _derive(proc, tag, out, contents):
-        h = hashlib.sha256()
-        h.update(repr((proc.command, tag, os.path.basename(out))).encode())
-        for c in contents:
-            h.update(hashlib.sha256(c).digest())
-        return ("GEN " + h.hexdigest()[:24] + "\n").encode()
+        from .realrt import derive
+
+        return derive(shlex.split(proc.command)[0], tag, out, contents)
 
     def _write(self, proc, path, srcs, tag=""):
         if tag.startswith("$"):
